@@ -9,6 +9,12 @@ CHECKS={
  "C16":("E3p",EX,"bounded-exhaustive enumeration of every gNMI path of the stated shape bound against round-trip, injectivity, split and parent oracles",
         "names are YANG identifiers; key values over a 10-character alphabet incl. escape-worthy characters, lengths 1..2 (3 thorough)",
         "bounded-exhaustive input enumeration against a reference (all inputs up to a shape bound)"),
+ "C17":("E3p",EX,"bounded-exhaustive enumeration of every scalar kind x width x boundary value and homogeneous leaf-lists through the real conversion and JSON rendering functions (v2 and v3), compared with an independent RFC 7951 expectation",
+        "value alphabet is the stated boundary set; the end-to-end journey (device request, Get) is covered by the world-based checks",
+        "bounded-exhaustive input enumeration against a reference (all inputs of a boundary-value alphabet)"),
+ "C18":("E3p",EX,"every subset of bounded size of a universe of path/values and tombstones through BuildTree / PrunePathValues / PrunePathMap (v2 and v3), compared with an independent schema-aware flattener and an element-aware subtree relation",
+        "universe of 28 paths (20 leaves live or tombstoned, 8 subtree tombstones); subsets of size <=4 (quick) / <=5 (thorough)",
+        "bounded-exhaustive input enumeration against a reference (all subsets up to a size bound)"),
 }
 NOT_YET="check not built yet in this session (planned, see DESIGN.md §4); not claimed until its check exists and passes"
 allp=[json.loads(l)['id'] for l in open('/verif/properties.jsonl')]
